@@ -41,6 +41,20 @@ Theorem C14_build_is_bip158 : forall hash sort, hash_ok hash -> sort_ok sort ->
 Proof. exact build_is_bip158. Qed.
 Print Assumptions C14_build_is_bip158.
 
+(* the hypothesis N*M < 2^64 above cannot be dropped: BuildGCSFilter computes uint64(N)*M, which wraps;
+   beyond it the bytes are NOT the BIP158 encoding.  Witness N = 2, M = 2^63, P = 32 (modulus 0 in the
+   code, 2^64 in the specification); only reachable through the raw BuildGCSFilter API (the builder
+   rejects M > MaxUint32, so N*M < 2^64 always holds there), and the specified encoding would need
+   unary runs of about M/2^P >= 2^31 bits *)
+Theorem C14_build_is_bip158_unbounded_refuted :
+  exists hash sort P M key data f,
+    hash_ok hash /\ sort_ok sort /\ P <= 32 /\ N.of_nat (length data) < two32 /\
+    two64 <= N.of_nat (length data) * M /\
+    build hash sort P M key data = Ok f /\
+    f_data f <> spec_filter_bytes hash sort P M key data.
+Proof. exact bip158_unbounded_refuted. Qed.
+Print Assumptions C14_build_is_bip158_unbounded_refuted.
+
 (* the filter does not depend on the order in which the items are supplied (Go map iteration order
    in GCSBuilder.Build is immaterial) *)
 Theorem C14_build_order_independent : forall hash sort, sort_ok sort ->
@@ -72,6 +86,31 @@ Theorem C14_deserialise_roundtrip : forall f M,
 Proof. exact deserialise_roundtrip. Qed.
 Print Assumptions C14_deserialise_roundtrip.
 
+(* the same for the P- and NP-prefixed forms.  This version of the library has no FromPBytes /
+   FromNPBytes: "rebuilt from them" means strip P (resp. parse CompactSize N, strip P) and call FromBytes.
+   The NP-prefixed string parses uniquely into (N, P, bytes). *)
+Theorem C14_deserialise_roundtrip_prefixed : forall f M,
+  f_n f < two32 -> f_p f <= 32 -> f_mod f = w64 (f_n f * M) ->
+  (exists rest, filter_pbytes f = f_p f :: rest /\ from_bytes (f_n f) (f_p f) M rest = Ok f) /\
+  (exists rest, read_varint (filter_npbytes f) = Ok (f_n f, f_p f :: rest) /\
+                from_bytes (f_n f) (f_p f) M rest = Ok f).
+Proof. exact deserialise_roundtrip_prefixed. Qed.
+Print Assumptions C14_deserialise_roundtrip_prefixed.
+
+(* ... and the hypotheses of the two theorems above hold for EVERY built filter (any hash, any sort, any
+   M, wrap of N*M included): a built filter round-trips through all four serialisations; the rebuilt
+   filter is the same record (N, P, modulus, bytes), so every query - a function of the record, the key
+   and the items - answers identically *)
+Theorem C14_built_filter_roundtrip : forall hash sort P M key data f,
+  build hash sort P M key data = Ok f ->
+  from_bytes (f_n f) (f_p f) M (filter_bytes f) = Ok f /\
+  from_nbytes (f_p f) M (filter_nbytes f) = Ok f /\
+  (exists rest, filter_pbytes f = f_p f :: rest /\ from_bytes (f_n f) (f_p f) M rest = Ok f) /\
+  (exists rest, read_varint (filter_npbytes f) = Ok (f_n f, f_p f :: rest) /\
+                from_bytes (f_n f) (f_p f) M rest = Ok f).
+Proof. exact built_roundtrip. Qed.
+Print Assumptions C14_built_filter_roundtrip.
+
 (* FromNBytes accepts exactly: canonical CompactSize N below 2^32, P <= 32; the rest is the filter *)
 Theorem C14_from_nbytes_accepts : forall P M d f,
   from_nbytes P M d = Ok f <->
@@ -86,6 +125,26 @@ Theorem C14_builder_content : forall hash sort txs keyhash,
     build hash sort default_p default_m (firstn 16 (keyhash ++ repeat 0 16)) (add_all [] (block_entries 0 txs)).
 Proof. exact builder_content. Qed.
 Print Assumptions C14_builder_content.
+
+(* BuildBasicFilter: the key hash is the block hash (SHA256d of the 80-byte header); BuildMempoolFilter:
+   zero key, and - an empty transaction standing in for the coinbase - the inputs of ALL given
+   transactions are included *)
+Theorem C14_block_filter_keys : forall hash sort header txs,
+  build_basic_filter hash sort header txs =
+    build hash sort default_p default_m (firstn 16 (sha256d header ++ repeat 0 16)) (add_all [] (block_entries 0 txs)) /\
+  build_mempool_filter hash sort txs =
+    build hash sort default_p default_m (repeat 0 16) (add_all [] (block_entries 1 txs)).
+Proof. exact block_filter_keys. Qed.
+Print Assumptions C14_block_filter_keys.
+
+Theorem C14_mempool_entries : forall txs,
+  let es := add_all [] (block_entries 1 txs) in
+  NoDup es /\
+  forall e, In e es <->
+    (exists t o, In t txs /\ In o (tx_ins t) /\ e = ser_outpoint o) \/
+    (exists t, In t txs /\ In e (tx_outs t) /\ e <> []).
+Proof. exact mempool_entries_spec. Qed.
+Print Assumptions C14_mempool_entries.
 
 Theorem C14_builder_params : default_p = 19 /\ default_m = 784931.
 Proof. exact default_params. Qed.
@@ -110,6 +169,15 @@ Theorem C14_builder_latch : forall hash sort b e, b_err b = Some e ->
   b_key_get b = Err e /\ b_build hash sort b = Err e.
 Proof. exact builder_latch. Qed.
 Print Assumptions C14_builder_latch.
+
+(* Build() on a live builder: "p value is not set" (class 5) when p = 0, else "m value is not set"
+   (class 6) when m = 0, else BuildGCSFilter of the entry set (0, 0, 16 and 32 are read from the source) *)
+Theorem C14_builder_build : forall hash sort b, b_err b = None ->
+  b_build hash sort b =
+    if b_p b =? 0 then Err 5 else if b_m b =? 0 then Err 6
+    else build hash sort (b_p b) (b_m b) (b_key b) (entries_of b).
+Proof. exact builder_build_live. Qed.
+Print Assumptions C14_builder_build.
 
 Theorem C14_builder_param_checks : forall b, b_err b = None ->
   (forall p, 32 < p -> b_err (set_p b p) = Some 2) /\
